@@ -170,6 +170,10 @@ def subgroup_points(g, seed, tier):
         return _PT_CACHE[key]
     G = ref.G1_GEN if g == 1 else ref.G2_GEN
     ks = [1, 2, 3, 4, r - 1, r - 2, r - 3, r - 4, (r + 1) // 2, (r - 1) // 2]
+    # the j = 0 automorphism (x, y) -> (w x, y): points with EQUAL y and different x (and, with the negatives, opposite y and different x);
+    # on the order-r subgroup it is multiplication by a cube root of unity mod r
+    lam = (X * X - 1) % r
+    ks += [lam, r - lam, lam * lam % r, r - lam * lam % r]
     nf = 1 if tier == "quick" else 3
     for f in fillers(seed, "pt%d" % g, nf, r):
         ks += [f, r - f, 2 * f % r]
